@@ -16,7 +16,7 @@ Record side := mk_side { l_local : bytes; l_remote : bytes; l_tpt : Z }.
 (* the two filters at the top of the loops of getSolicitEntries and resolveMatch:
    if pid := PeerID(); len(pid) != 0 && pid != remotePeer { continue }
    if tid := TransportID(); tid != 0 && tid != transportUUID { continue } *)
-Definition admits (l : side) (s : sol) : bool :=
+Definition allows (l : side) (s : sol) : bool :=
   negb (negb (Nat.eqb (length s.(s_peer)) 0) && negb (bytes_eqb s.(s_peer) l.(l_remote)))
   && negb (negb (Z.eqb s.(s_tpt) 0) && negb (Z.eqb s.(s_tpt) l.(l_tpt))).
 
@@ -30,7 +30,7 @@ Definition sol_hash (sid : sbytes) (s : sol) : sbytes := protocol_hash sid s.(s_
    symbolic model does not have; FindMatchingHashes on sorted lists is the
    intersection by the C32 theorems) *)
 Definition local_hashes (l : side) (sols : list sol) : list sbytes :=
-  map (sol_hash (side_sid l)) (filter (admits l) sols).
+  map (sol_hash (side_sid l)) (filter (allows l) sols).
 
 Definition smem (h : sbytes) (hs : list sbytes) : bool := existsb (sbytes_eqb h) hs.
 
@@ -51,7 +51,7 @@ Fixpoint resolve_from (l : side) (h : sbytes) (i : nat) (sols : list sol) : list
   match sols with
   | [] => []
   | s :: r =>
-      if admits l s && sbytes_eqb (sol_hash (side_sid l) s) h
+      if allows l s && sbytes_eqb (sol_hash (side_sid l) s) h
       then i :: resolve_from l h (S i) r else resolve_from l h (S i) r
   end.
 Definition resolve_match (l : side) (sols : list sol) (h : sbytes) : list nat :=
@@ -64,7 +64,7 @@ Definition receivers (la : side) (sa : list sol) (lb : side) (sb : list sol) : l
 (* solicitation a of side la and solicitation b of side lb are matched with
    each other: a stream is opened for a hash that resolves to both *)
 Definition matched (la : side) (a : sol) (lb : side) (b : sol) : bool :=
-  admits la a && admits lb b && sbytes_eqb (sol_hash (side_sid la) a) (sol_hash (side_sid lb) b).
+  allows la a && allows lb b && sbytes_eqb (sol_hash (side_sid la) a) (sol_hash (side_sid lb) b).
 
 (* the two ends of one link *)
 Definition ends_of_one_link (la lb : side) : Prop :=
